@@ -1,12 +1,14 @@
 package main
 
 import (
+	"bufio"
 	"fmt"
 	"io"
 	"math/rand"
 	"reflect"
 	"strings"
 	"sync/atomic"
+	"time"
 
 	"github.com/biogo/biogo/alphabet"
 	"github.com/biogo/biogo/feat"
@@ -26,7 +28,8 @@ func init() {
 		Level: "exploration",
 		Rule: "per case one valid file (FASTA, FASTQ, BED3/4/5/6/12 or GFF with features/regions/inline sequences/comments, from the C01/C02 generators) parsed in canonical layout (LF, final newline) and then in 6..14 re-laid-out variants: " +
 			"FASTA re-wrapped at widths {1,2,7,60,4095,4096,4097,20000,random}, blank lines at random line boundaries, trailing blanks/tabs, CRLF, no final terminator and products of these; FASTQ CRLF, blank lines between records, trailing blanks, no final terminator; " +
-			"BED/GFF all of {LF,CRLF} x {final terminator, none}. Oracle: record list of every variant equals the canonical list (count included). Non-trivial = variant bytes differ from the canonical bytes and the file has >=1 record; distinct = (format, variant bytes hash)",
+			"BED/GFF all of {LF,CRLF} x {final terminator, none} (GFF also with a last line that only updates the metadata). FASTA/FASTQ additions: white space also VT, FF and a CR that is not part of the terminator; LF and CRLF drawn per line; a last line that keeps a lone CR; 1 case in 4 read through a caller-sized *bufio.Reader (4097..65536 bytes) with line lengths around that size; " +
+			"a header-only last record exactly one or two buffers long; headers over 64 KiB; records over 64 KiB re-wrapped at widths beyond 64 KiB together with the other changes. Oracle: record list of every variant equals the canonical list (count included). Non-trivial = variant bytes differ from the canonical bytes and the file has >=1 record; distinct = (format, variant bytes hash)",
 		Batches: func(t string) int {
 			if t == "thorough" {
 				return 16
@@ -38,7 +41,9 @@ func init() {
 		MinDistinct: func(t string) int { return 4000 },
 		Floors: func(string) map[string]int64 {
 			return map[string]int64{"variants_compared": 6000, "no_final_terminator_variants": 2500, "crlf_variants": 2500, "long_physical_lines": 60, "rewrapped_variants": 800, "blank_line_variants": 1000,
-				"bed_gff_last_line_unterminated": 1000, "gff_last_item_sequence_unterminated": 60}
+				"bed_gff_last_line_unterminated": 1000, "gff_last_item_sequence_unterminated": 60,
+				"variants_with_lf_and_crlf_mixed": 800, "variants_with_vt_ff_cr_white_space": 2000, "variants_read_through_a_caller_sized_bufio_reader": 2000, "fasta_last_header_exactly_a_buffer_long": 80,
+				"unterminated_last_line_fills_a_64KiB_buffer": 20, "lines_over_64KiB_with_other_layout_changes": 20, "gff_last_line_metadata_only_unterminated": 80}
 		},
 		Assumptions: []string{"'no final terminator' removes exactly the last line terminator of the canonical text", "FASTQ blank lines are inserted only between records"},
 	})
@@ -50,6 +55,23 @@ type c04Layout struct {
 	NoFinal bool `json:"no_final_terminator"`
 	Blanks  int  `json:"blank_lines"`
 	Trail   int  `json:"lines_with_trailing_blanks"`
+	Mixed   bool `json:"terminator_drawn_per_line,omitempty"`    // every line ends in LF or CRLF on its own
+	LoneCR  bool `json:"file_ends_in_a_lone_cr,omitempty"`       // with NoFinal: the last line keeps a CR (trailing white space) but has no LF
+	Odd     int  `json:"vt_ff_cr_used_as_white_space,omitempty"` // white space other than blank and tab was used
+	BufSize int  `json:"callers_bufio_reader_size,omitempty"`    // the reader is handed a *bufio.Reader of this size
+}
+
+// c04Spaces are the strings used as trailing white space and as the content of blank lines: blanks and tabs, and (1
+// in 4) the other ASCII white space, vertical tab, form feed and a carriage return that is not part of the terminator.
+func c04Space(rng *rand.Rand, lay *c04Layout, blankLine bool) string {
+	if rng.Intn(4) == 0 {
+		lay.Odd++
+		return []string{"\v", "\f", "\r", " \f\t", "\r\r", "\t\v "}[rng.Intn(6)]
+	}
+	if blankLine {
+		return []string{"", "", " ", "\t"}[rng.Intn(4)]
+	}
+	return []string{" ", "\t", "  \t ", "   "}[rng.Intn(4)]
 }
 
 func fastaLines(recs []ioRec, width int) (lines []string, recStart []int) {
@@ -108,22 +130,32 @@ func layoutText(rng *rand.Rand, lines []string, boundaries []int, lay *c04Layout
 	var phys []string
 	emitBlank := func(i int) {
 		for k := 0; k < blank[i]; k++ {
-			phys = append(phys, []string{"", "", " ", "\t"}[rng.Intn(4)])
+			phys = append(phys, c04Space(rng, lay, true))
 		}
 	}
 	for i, ln := range lines {
 		emitBlank(i)
 		if wantTrail && rng.Intn(3) == 0 {
-			ln += []string{" ", "\t", "  \t ", "   "}[rng.Intn(4)]
+			ln += c04Space(rng, lay, false)
 			lay.Trail++
 		}
 		phys = append(phys, ln)
 	}
 	emitBlank(len(lines))
 	var sb strings.Builder
-	sb.WriteString(strings.Join(phys, term))
-	if !lay.NoFinal && len(phys) > 0 {
-		sb.WriteString(term)
+	for i, ln := range phys {
+		sb.WriteString(ln)
+		t := term
+		if lay.Mixed {
+			t = []string{"\n", "\r\n"}[rng.Intn(2)]
+		}
+		if i == len(phys)-1 && lay.NoFinal {
+			t = ""
+			if lay.LoneCR {
+				t = "\r"
+			}
+		}
+		sb.WriteString(t)
 	}
 	return []byte(sb.String())
 }
@@ -205,6 +237,60 @@ func c04Case(r *obs.Run, i int) {
 			}
 			recs = append(recs, rec)
 		}
+		// 1 case in 4: the reader is handed a *bufio.Reader of the caller's own size (it then works with that buffer,
+		// whatever size it would have chosen itself), and the boundary material is placed around that size
+		bufS, bufUnit := 0, 4096
+		if rng.Intn(4) == 0 {
+			bufS = []int{4097, 5000, 8192, 4097 + rng.Intn(8000), 5000, 8192, 12288, 65536}[rng.Intn(8)]
+			bufUnit = bufS
+			if nrec > 0 {
+				n := []int{bufS - 1, bufS, bufS + 1, bufS}[rng.Intn(4)]
+				if bufS < 20000 && rng.Intn(4) == 0 {
+					n = 2 * bufS
+				}
+				last := &recs[nrec-1]
+				last.Letters = genLetters(rng, al.a, n)
+				if kind == "fastq" {
+					last.Quals = genQuals(rng, enc, n)
+				}
+			}
+		}
+		// a last record that is a header line only, exactly one or two buffers long (the unterminated last line of the
+		// file is then a header that ends where a buffer does)
+		if kind == "fasta" && nrec > 0 && rng.Intn(12) == 0 {
+			size := bufUnit * (1 + rng.Intn(2))
+			if size > 70000 {
+				size = bufUnit
+			}
+			printable := func(n int) []byte {
+				b := make([]byte, n)
+				for i := range b {
+					b[i] = byte(33 + rng.Intn(94))
+				}
+				return b
+			}
+			last := ioRec{}
+			if rng.Intn(2) == 0 {
+				last.Name = string(printable(size - 1))
+			} else {
+				last.Name = string(printable(10))
+				d := printable(size - 12)
+				for k := 0; k < len(d)/9; k++ { // inner blanks and tabs; the ends stay printable
+					d[1+rng.Intn(len(d)-2)] = " \t"[rng.Intn(2)]
+				}
+				last.Desc = string(d)
+			}
+			recs[nrec-1] = last
+		}
+		// now and then a header line longer than 64 KiB
+		if nrec > 0 && rng.Intn(150) == 0 {
+			b := make([]byte, 65530+rng.Intn(9000))
+			for i := range b {
+				b[i] = byte(33 + rng.Intn(94))
+			}
+			recs[rng.Intn(nrec)].Name = string(b)
+			r.Count("files_with_a_header_over_64KiB", 1)
+		}
 		var rb []interface{}
 		for _, rec := range recs {
 			rb = append(rb, rec.brief())
@@ -228,7 +314,14 @@ func c04Case(r *obs.Run, i int) {
 		parse := func(data []byte) ([]ioRec, error) {
 			var got []seq.Sequence
 			var err error
-			if kind == "fasta" {
+			if bufS > 0 {
+				src := bufio.NewReaderSize(newSrc(rng, data), bufS)
+				if kind == "fasta" {
+					got, err, _ = readAllFastaFrom(src, ioTemplate(rng, al.a, rng.Intn(2) == 0, alphabet.Sanger), nrec+3)
+				} else {
+					got, err, _ = readAllFastqFrom(src, ioTemplate(rng, al.a, true, enc), nrec+3)
+				}
+			} else if kind == "fasta" {
 				got, err, _ = readAllFasta(rng, data, al.a, nrec+3)
 			} else {
 				got, err, _ = readAllFastq(rng, data, al.a, enc, false, nrec+3)
@@ -258,9 +351,33 @@ func c04Case(r *obs.Run, i int) {
 		}
 		nvar := 6 + rng.Intn(9)
 		widths := []int{1, 2, 7, 60, 4095, 4096, 4097, 20000, 1 + rng.Intn(300), 1 + rng.Intn(20000)}
-		for v := 0; v < nvar; v++ {
+		type plan struct {
+			lay           c04Layout
+			blanks, trail bool
+		}
+		var extra []plan
+		if bufS > 0 {
+			widths = append(widths, bufS-1, bufS, bufS+1, bufS)
+			if kind == "fasta" {
+				extra = append(extra, plan{lay: c04Layout{Width: bufS, NoFinal: true, CRLF: rng.Intn(2) == 0}})
+			}
+		}
+		longest := 0
+		for _, rec := range recs {
+			longest = maxInt(longest, len(rec.Letters))
+		}
+		if longest > 65536 && kind == "fasta" {
+			// "re-wrapping at any width": physical lines beyond 64 KiB together with the other layout changes
+			widths = append(widths, longest, longest+5, 65535, 65536, 65537, 131072)
+			extra = append(extra, plan{lay: c04Layout{Width: []int{longest, 65535, 65536, 65537, 131072}[rng.Intn(5)], CRLF: rng.Intn(2) == 0, NoFinal: rng.Intn(2) == 0, Mixed: rng.Intn(4) == 0},
+				blanks: rng.Intn(2) == 0, trail: true})
+		}
+		for v := 0; v < nvar+len(extra); v++ {
 			lay := &c04Layout{Width: 60}
 			blanks, trail := false, false
+			if v >= nvar {
+				*lay, blanks, trail = extra[v-nvar].lay, extra[v-nvar].blanks, extra[v-nvar].trail
+			}
 			switch v {
 			case 0:
 				lay.NoFinal = true
@@ -275,13 +392,20 @@ func c04Case(r *obs.Run, i int) {
 			case 5:
 				lay.Width = widths[rng.Intn(len(widths))]
 			default:
+				if v >= nvar {
+					break
+				}
 				lay.Width = widths[rng.Intn(len(widths))]
 				lay.CRLF, lay.NoFinal = rng.Intn(2) == 0, rng.Intn(2) == 0
 				blanks, trail = rng.Intn(2) == 0, rng.Intn(2) == 0
+				// every line draws LF or CRLF for itself; a file that lost only the LF of its last CRLF
+				lay.Mixed = rng.Intn(4) == 0
+				lay.LoneCR = lay.NoFinal && rng.Intn(3) == 0
 			}
 			if kind == "fastq" {
 				lay.Width = 0
 			}
+			lay.BufSize = bufS
 			data := build(lay, blanks, trail)
 			w["layout"] = lay
 			got, err := parse(data)
@@ -312,6 +436,35 @@ func c04Case(r *obs.Run, i int) {
 			if lay.Blanks > 0 {
 				r.Count("blank_line_variants", 1)
 			}
+			if lay.Mixed {
+				r.Count("variants_with_lf_and_crlf_mixed", 1)
+			}
+			if lay.LoneCR && len(data) > 0 {
+				r.Count("variants_ending_in_a_lone_cr", 1)
+			}
+			if lay.Odd > 0 {
+				r.Count("variants_with_vt_ff_cr_white_space", 1)
+			}
+			if bufS > 0 {
+				r.Count("variants_read_through_a_caller_sized_bufio_reader", 1)
+			}
+			if lay.NoFinal && !lay.LoneCR {
+				if ll := len(data) - 1 - strings.LastIndexByte(string(data), '\n'); ll > 0 && ll%bufUnit == 0 {
+					r.Count("unterminated_last_line_fills_the_read_buffer", 1)
+					if bufS > 0 {
+						r.Count("unterminated_last_line_fills_the_callers_buffer", 1)
+					}
+					if bufS == 65536 {
+						r.Count("unterminated_last_line_fills_a_64KiB_buffer", 1)
+					}
+					if kind == "fasta" && data[len(data)-ll] == '>' {
+						r.Count("fasta_last_header_exactly_a_buffer_long", 1)
+					}
+				}
+			}
+			if kind == "fasta" && lay.Width > 65536 && longest > 65536 && (lay.CRLF || lay.NoFinal || lay.Mixed || lay.Blanks > 0 || lay.Trail > 0) {
+				r.Count("lines_over_64KiB_with_other_layout_changes", 1)
+			}
 			if kind == "fasta" && lay.Width != 60 {
 				r.Count("rewrapped_variants", 1)
 				for _, rec := range recs {
@@ -329,14 +482,14 @@ func c04Case(r *obs.Run, i int) {
 		}
 	default: // bed*, gff from the real writers
 		cw := &countingWriter{}
-		lastIsSeq := false
+		lastIsSeq, lastIsMeta := false, false
 		var desc []string
 		if kind == "gff" {
 			gw := gff.NewWriter(cw, 1+rng.Intn(70), rng.Intn(2) == 0)
 			n := 1 + rng.Intn(5)
 			for k := 0; k < n; k++ {
-				lastIsSeq = false
-				switch c := rng.Intn(10); {
+				lastIsSeq, lastIsMeta = false, false
+				switch c := rng.Intn(11); {
 				case c < 5:
 					f := genGFF(rng)
 					gw.Write(f)
@@ -360,6 +513,22 @@ func c04Case(r *obs.Run, i int) {
 					gw.Write(sq)
 					lastIsSeq = true
 					desc = append(desc, fmt.Sprintf("sequence %q (%d letters)", sq.ID, sq.Len()))
+				case c == 10: // a line that only updates the reader's metadata (it may be the last line of the file)
+					lastIsMeta = true
+					switch rng.Intn(3) {
+					case 0:
+						sv := genNoSpace(rng) + " " + genNoSpace(rng)
+						gw.WriteMetaData("source-version " + sv)
+						desc = append(desc, "##source-version "+sv)
+					case 1:
+						d := time.Date(1+rng.Intn(9998), time.Month(1+rng.Intn(12)), 1+rng.Intn(28), 0, 0, 0, 0, time.UTC)
+						gw.WriteMetaData(d)
+						desc = append(desc, "##date "+d.Format("2006-1-02"))
+					default:
+						t := feat.Moltype(rng.Intn(4) - 1)
+						gw.WriteMetaData(t)
+						desc = append(desc, "##Type "+t.String())
+					}
 				default:
 					c := genField(rng, true)
 					gw.WriteComment(c)
@@ -412,7 +581,7 @@ func c04Case(r *obs.Run, i int) {
 			last := render(target - base)
 			if len(last)-1 == target {
 				cw.buf.Write(last)
-				lastIsSeq = false
+				lastIsSeq, lastIsMeta = false, false
 				desc = append(desc, fmt.Sprintf("a last record whose line is %d bytes long", target))
 				r.Count("last_lines_exactly_a_buffer_long", 1)
 			}
@@ -456,6 +625,9 @@ func c04Case(r *obs.Run, i int) {
 				r.Count("bed_gff_last_line_unterminated", 1)
 				if lastIsSeq {
 					r.Count("gff_last_item_sequence_unterminated", 1)
+				}
+				if lastIsMeta {
+					r.Count("gff_last_line_metadata_only_unterminated", 1)
 				}
 			}
 			if lay.CRLF {
